@@ -364,6 +364,39 @@ def is_err_term(t):
     return False
 
 
+_NEG = {'Lt': 'Ge', 'Ge': 'Lt', 'Gt': 'Le', 'Le': 'Gt', 'Eq': 'Ne', 'Ne': 'Eq'}
+_SWAP = {'Lt': 'Gt', 'Gt': 'Lt', 'Le': 'Ge', 'Ge': 'Le', 'Eq': 'Eq', 'Ne': 'Ne'}
+
+
+def holds(cond, truth):
+    """the comparison that is known to hold when `cond` evaluated to `truth`: (op, left, right) with casts stripped, or None.
+    `!(a > b)` is reported as (Le, a, b); use holds_both to also get the mirrored spelling."""
+    if truth is None:
+        return None
+    if cond[0] == 'un' and cond[1] == 'Not':
+        return holds(cond[2], not truth)
+    if cond[0] != 'bin' or cond[1] not in _NEG:
+        return None
+    op = cond[1] if truth else _NEG[cond[1]]
+    return op, strip_casts(cond[2]), strip_casts(cond[3])
+
+
+def holds_both(cond, truth):
+    h = holds(cond, truth)
+    if h is None:
+        return []
+    op, l, r = h
+    return [(op, l, r), (_SWAP[op], r, l)]
+
+
+def facts_at(body, bb):
+    """all comparisons known to hold on entry to block bb (from dominating branches), both spellings"""
+    out = []
+    for cond, vals, a in guards(body, bb):
+        out += holds_both(cond, bool_outcome(body, a, vals))
+    return out
+
+
 def error_blocks(body):
     """blocks that set an error value which must end the function with that error: a whole definition of the return slot
     (local 0) - or of the return slot of an inlined `helper(..)?` call (locals flagged err_exit by engine/inline.py) - by an
